@@ -1,0 +1,12 @@
+//go:build verif
+
+package auparse
+
+// VerifMessageTypeToName exposes the record type to name table.
+func VerifMessageTypeToName() map[AuditMessageType]string { return auditMessageTypeToName }
+
+// VerifMessageNameToType exposes the name to record type table.
+func VerifMessageNameToType() map[string]AuditMessageType { return auditMessageNameToType }
+
+// VerifRegexSources returns the source text of the parser's regular expressions.
+func VerifRegexSources() (kv, avc string) { return kvRegex.String(), selinuxAVCMessageRegex.String() }
